@@ -113,6 +113,14 @@ func genInbox(r *Rng, prop string, k int) *RunSpec {
 		st.W.Remote = append(st.W.Remote, DocSpec{dv, mustJSON(d)})
 		actorPool[r.Intn(3)] = dv
 	}
+	if r.Intn(5) == 0 {
+		// a peer whose actor id points into its profile document (WebID style)
+		fv := "https://" + hostR + "/profile/card#me"
+		d := remoteActor("me")
+		d["id"] = fv
+		st.W.Remote = append(st.W.Remote, DocSpec{fv, mustJSON(d)})
+		actorPool[r.Intn(3)] = fv
+	}
 	// 1..3 actors
 	var actors []interface{}
 	p := r.Perm(3)
